@@ -178,6 +178,10 @@ class Sizes:
                 return b.scale(a.const)
             if b.is_const():
                 return a.scale(b.const)
+        if k == 'un' and v[1] == '-':
+            return self.lin(v[2], st).scale(-1)
+        if k == 'un' and v[1] == '+':
+            return self.lin(v[2], st)
         if k == 'mcall' and v[2] == 'size' and not v[3]:
             return self.size(v[1], st)
         if k == 'call' and v[1] == 'len' and len(v[2]) == 1:
